@@ -9,6 +9,7 @@
 From Coq Require Import List ZArith Arith Sorted.
 Import ListNotations.
 From DD Require Import Lfu.LfuModel Lfu.LfuSpec Lfu.LfuInv Lfu.LfuSpecProps Lfu.LfuProofs.
+From DD Require Import Lfu.LfuRtModel Lfu.LfuRtProofs.
 
 (** ** The model: structural invariant after every operation sequence *)
 Theorem C18_inv : forall (val : Type) (c : nat) (ops : list (op val)), 1 <= c ->
@@ -52,6 +53,11 @@ Theorem C18_last_value : forall (val : Type) (c : nat) (pre : list (op val)) (k 
   snd (run (empty c) (pre ++ OSet k v :: mid)) ++ [Some v].
 Proof. exact (@lfu_last_value). Qed.
 Print Assumptions C18_last_value.
+
+Theorem C18_set_then_find : forall (val : Type) (c : nat) (ops : list (op val)) (k : key) (v : val), 1 <= c ->
+  exists u, find_key k (buckets (state_of c (ops ++ [OSet k v]))) = Some (u, v).
+Proof. exact (@lfu_set_then_find). Qed.
+Print Assumptions C18_set_then_find.
 
 Theorem C18_evicted_gone : forall (val : Type) (c : nat) (pre : list (op val)) (o : op val) (k : key), 1 <= c ->
   evicts (fst (srun (sempty c) pre)) o k ->
@@ -122,3 +128,46 @@ Theorem C18_no_eviction_otherwise : forall (val : Type) (s : spec val) (k : key)
   (length (entries s) < scap s -> evicted_by_set s k = None).
 Proof. exact (@no_eviction_otherwise). Qed.
 Print Assumptions C18_no_eviction_otherwise.
+
+(** ** Extension: set(key, report_type, value) with defaultdict(SetOrdered) content
+    (Lfu/LfuRtModel.v).  A trace with report types is a trace of the generic model
+    at [val := content] on the lowered operations, so all statements above apply. *)
+Theorem C18_rt_lowers : forall (c : nat) (ops : list rop),
+  rstate_of c ops = state_of c (lower_ops (empty c) ops) /\
+  get_outs (snd (rrun (empty c) ops)) = snd (run (empty c) (lower_ops (empty c) ops)).
+Proof. exact rt_lowers. Qed.
+Print Assumptions C18_rt_lowers.
+
+Theorem C18_rt_inv : forall (c : nat) (ops : list rop), 1 <= c ->
+  let s := rstate_of c ops in
+  StronglySorted lt (map freq (buckets s)) /\
+  Forall (fun b => items b <> []) (buckets s) /\
+  NoDup (map fst (flat_map items (buckets s))) /\
+  size s <= cap s /\ cap s = c.
+Proof. exact rt_inv. Qed.
+Print Assumptions C18_rt_inv.
+
+Theorem C18_rt_refines_spec : forall (c : nat) (ops : list rop), 1 <= c ->
+  get_outs (snd (rrun (empty c) ops)) = snd (srun (sempty c) (lower_ops (empty c) ops)) /\
+  R (rstate_of c ops) (fst (srun (sempty c) (lower_ops (empty c) ops))).
+Proof. exact rt_refines_spec. Qed.
+Print Assumptions C18_rt_refines_spec.
+
+(** a set raises exactly when a report type is given for a key whose content is a
+    plain value, and then the cache is unchanged *)
+Theorem C18_rt_raises_iff : forall (s : lfu content) (k : key) (rt : option rtype) (v : Z),
+  snd (set_rt s k rt v) = true <->
+  exists r u x, rt = Some r /\ find_key k (buckets s) = Some (u, CVal x).
+Proof. exact rt_raises_iff. Qed.
+Print Assumptions C18_rt_raises_iff.
+
+Theorem C18_rt_raise_keeps_state : forall (s : lfu content) (k : key) (rt : option rtype) (v : Z),
+  snd (set_rt s k rt v) = true -> fst (set_rt s k rt v) = s.
+Proof. exact rt_raise_keeps_state. Qed.
+Print Assumptions C18_rt_raise_keeps_state.
+
+Theorem C18_rt_set_then_find : forall (c : nat) (ops : list rop) (k : key) (rt : option rtype) (v : Z) (cnt : content),
+  1 <= c -> lower (rstate_of c ops) k rt v = Some cnt ->
+  exists u, find_key k (buckets (rstate_of c (ops ++ [RSet k rt v]))) = Some (u, cnt).
+Proof. exact rt_set_then_find. Qed.
+Print Assumptions C18_rt_set_then_find.
